@@ -443,36 +443,55 @@ theorem observation_keeps_state (K : Kernels ℂ) (o : Obj ℂ) (op : Op ℂ)
 
 /-- **Round trip after any history (Blast / MRC).**  Whatever the object did before
     (decodes with an MMSE filter included), once the configured noise variance is `None`/`0`
-    (not positive) and the configured channel has full column rank, decoding the noise-free
-    channel output of what the object encodes returns the data. -/
+    (not positive) and the configured channel `c` has full column rank, decoding the
+    noise-free channel output of what the object encodes returns the data. -/
 theorem blast_object_roundtrip_after_history (K : Kernels ℂ) (o0 : Obj ℂ)
-    (hs : o0.scheme = .blast ∨ o0.scheme = .mrc) (ops : List (Op ℂ))
-    (hr : FullColRank (run K o0 ops).chan.H)
-    (hp : IsPinv (run K o0 ops).chan.H (K.pinv (run K o0 ops).chan.H))
-    (hnv : ¬ 0 < (run K o0 ops).nv.re) (x : Vec ℂ n)
-    (E : Mat ℂ (run K o0 ops).chan.nt (n / (run K o0 ops).chan.nt))
+    (hs : o0.scheme = .blast ∨ o0.scheme = .mrc) (ops : List (Op ℂ)) (c : Chan ℂ)
+    (hoc : (run K o0 ops).chan = some c)
+    (hr : FullColRank c.H) (hp : IsPinv c.H (K.pinv c.H))
+    (hnv : ¬ 0 < (run K o0 ops).nv.re) (x : Vec ℂ n) (E : Mat ℂ c.nt (n / c.nt))
     (hE : (step K (run K o0 ops) (.encode n x)).2 = .mat _ _ E) :
-    ∃ d : Vec ℂ ((run K o0 ops).chan.nt * (n / (run K o0 ops).chan.nt)),
-      (step K (run K o0 ops) (.decode _ _ (matMul (run K o0 ops).chan.H E))).2 = .vec _ d ∧
-      ∀ (j : Nat) (hj : j < n) (hj' : j < (run K o0 ops).chan.nt * (n / (run K o0 ops).chan.nt)),
-        d ⟨j, hj'⟩ = x ⟨j, hj⟩ := by
+    ∃ d : Vec ℂ (c.nt * (n / c.nt)),
+      (step K (run K o0 ops) (.decode _ _ (matMul c.H E))).2 = .vec _ d ∧
+      ∀ (j : Nat) (hj : j < n) (hj' : j < c.nt * (n / c.nt)), d ⟨j, hj'⟩ = x ⟨j, hj⟩ := by
   have hs' : (run K o0 ops).scheme = .blast ∨ (run K o0 ops).scheme = .mrc := by
     rw [Pf.run_scheme]; exact hs
-  exact Pf.blast_obj_roundtrip K (run K o0 ops) hs' hr hp hnv x E hE
+  exact Pf.blast_obj_roundtrip K (run K o0 ops) c hoc hs' hr hp hnv x E hE
 
 /-- **SNR sweep on one object.**  `set_noise_var(σ²)` replaces the stored noise variance and
-    nothing else, and the receive filter the object then computes tends, entry by entry, to
-    the zero-forcing filter it computes after `set_noise_var(0)` / `set_noise_var(None)`. -/
+    nothing else, and the receive filter the object then computes for its channel `c` tends,
+    entry by entry, to the zero-forcing filter it computes after `set_noise_var(0)` /
+    `set_noise_var(None)`. -/
 theorem object_sweep_tendsto_zf (K : Kernels ℂ) (o : Obj ℂ) (hb : o.scheme.blastFamily = true)
-    (hr : FullColRank o.chan.H) (hp : IsPinv o.chan.H (K.pinv o.chan.H))
-    (hsol : ∀ s : ℝ, 0 < s → IsSolve (mmseLhs o.chan.H (s : ℂ)) (mmseRhs o.chan.H)
-      (K.solve (mmseLhs o.chan.H (s : ℂ)) (mmseRhs o.chan.H))) :
+    (c : Chan ℂ) (hr : FullColRank c.H) (hp : IsPinv c.H (K.pinv c.H))
+    (hsol : ∀ s : ℝ, 0 < s → IsSolve (mmseLhs c.H (s : ℂ)) (mmseRhs c.H)
+      (K.solve (mmseLhs c.H (s : ℂ)) (mmseRhs c.H))) :
     (∀ s : ℝ, 0 ≤ s → (step K o (.setNoiseVar (some (s : ℂ)))).1 = { o with nv := (s : ℂ) }) ∧
     (step K o (.setNoiseVar none)).1 = { o with nv := 0 } ∧
-    ∀ i j, Tendsto (fun s : ℝ => blastFilterK K o.chan.H (s : ℂ) i j) (𝓝[>] 0)
-      (𝓝 (blastFilterK K o.chan.H 0 i j)) :=
+    ∀ i j, Tendsto (fun s : ℝ => blastFilterK K c.H (s : ℂ) i j) (𝓝[>] 0)
+      (𝓝 (blastFilterK K c.H 0 i j)) :=
   ⟨fun s hs => (Pf.step_setNoiseVar K o hb s hs).1, (Pf.step_setNoiseVar K o hb 0 le_rfl).2,
-    fun i j => Pf.blastFilterK_tendsto K o.chan.H hr hp hsol i j⟩
+    fun i j => Pf.blastFilterK_tendsto K c.H hr hp hsol i j⟩
+
+/-- **Same configuration, same object (R7: any entry point, any order, any repetition).**
+    Two objects of the same class — built with or without a channel (`construct`,
+    `constructEmpty`), driven through ANY two histories — are in the same state as soon as
+    the histories leave the same channel and the same noise variance configured; hence
+    every later `encode` / `decode` / query agrees. -/
+theorem same_configuration_same_object (K : Kernels ℂ) (o1 o2 : Obj ℂ) (ops1 ops2 : List (Op ℂ))
+    (hs : o1.scheme = o2.scheme)
+    (hc : cfgChan o1.scheme o1.chan ops1 = cfgChan o2.scheme o2.chan ops2)
+    (hv : cfgNv o1.scheme o1.nv ops1 = cfgNv o2.scheme o2.nv ops2) :
+    run K o1 ops1 = run K o2 ops2 := by
+  rw [Pf.run_state K ops1 o1, Pf.run_state K ops2 o2, hc, hv, hs]
+
+/-- **A call that raises leaves the object exactly as it was (R4).**  Whatever operation
+    returns a Python exception (rejected channel shape, negative noise variance,
+    `set_noise_var` on a class without it, bad block length, wrong number of rows, missing
+    channel …) the state is unchanged. -/
+theorem rejected_call_keeps_state (K : Kernels ℂ) (o : Obj ℂ) (op : Op ℂ) (e : PyErr)
+    (h : (step K o op).2 = .err e) : (step K o op).1 = o :=
+  Pf.step_err_state K o op e h
 
 /-! ## non-vacuity: concrete values satisfying the hypotheses -/
 
@@ -509,9 +528,18 @@ example (y : Mat ℂ 2 1) :
         [.setNoiseVar (some ((1 / 2 : ℝ) : ℂ)), .decode 2 1 y, .setChannel (.mat 2 1 Ex.H2), .setNoiseVar none] ∧
       setNoiseVar (none : Option ℂ) = .ok (cfgNv .blast o0.nv
         [.setNoiseVar (some ((1 / 2 : ℝ) : ℂ)), .decode 2 1 y, .setChannel (.mat 2 1 Ex.H2), .setNoiseVar none]) := by
-  refine ⟨⟨.blast, ⟨2, 1, Ex.H⟩, 0⟩, ⟨.blast, ⟨2, 1, Ex.H2⟩, 0⟩, rfl, rfl, ?_, ?_⟩
+  refine ⟨⟨.blast, some ⟨2, 1, Ex.H⟩, 0⟩, ⟨.blast, some ⟨2, 1, Ex.H2⟩, 0⟩, rfl, rfl, ?_, ?_⟩
   · simp [cfgChan, storeChan]
   · have h : (0 : ℝ) ≤ 1 / 2 := by norm_num
     simp [cfgNv, Scheme.blastFamily, setNoiseVar, nonnegB_def]
+
+/-- `same_configuration_same_object` is not vacuous: `Blast()` followed by `set_noise_var(1/2)`,
+    a rejected 1-D channel, `set_channel_matrix([1, j]ᵀ)` and a repeated `set_noise_var(1/2)`
+    leaves the configuration of `Blast([1, j]ᵀ)` followed by `set_noise_var(1/2)` -/
+example : cfgChan .blast (constructEmpty (α := ℂ) .blast).chan
+      [.setNoiseVar (some ((1 / 2 : ℝ) : ℂ)), .setChannel (.vec 2 (fun _ => 1)), .setChannel (.mat 2 1 Ex.H),
+        .setNoiseVar (some ((1 / 2 : ℝ) : ℂ))]
+    = cfgChan .blast (some ⟨2, 1, Ex.H⟩) [.setNoiseVar (some ((1 / 2 : ℝ) : ℂ))] := by
+  simp [cfgChan, storeChan]
 
 end PyPhysim.C04
